@@ -6,6 +6,7 @@
 //!
 //! Adding an op: write a `fn(&[&str]) -> String` and add one arm to `dispatch`.
 
+mod api;
 mod builder;
 mod laws;
 mod observe;
@@ -97,6 +98,7 @@ fn dispatch(op: &str, args: &[&str]) -> String {
         "laws" => laws::op_laws(args),
         "assoc" => laws::op_assoc(args),
         "btag" => builder::op_btag(args),
+        "api" => api::op_api(args),
         // "decr_none": not implemented yet
         _ => BADOP.to_string(),
     }
@@ -132,7 +134,7 @@ pub(crate) fn text_arg(args: &[&str], i: usize) -> Option<String> {
 }
 
 /// Decimal argument number `i`.
-fn num_arg<T: std::str::FromStr>(args: &[&str], i: usize) -> Option<T> {
+pub(crate) fn num_arg<T: std::str::FromStr>(args: &[&str], i: usize) -> Option<T> {
     let a = args.get(i)?;
     if a.is_empty() || !a.bytes().all(|c| c.is_ascii_digit()) {
         return None;
